@@ -97,7 +97,12 @@ func vIsEch(p string) bool { return len(p) >= 4 && p[:4] == "ech=" }
 
 // verifC20Publish: <= 3 requested targets over a zone table of <= 2 records
 // whose values are <= 3 parameters; each API call may fail.
+var vC20Retried bool
+
+func vReachedRetry() bool { return vC20Retried }
+
 func verifC20Publish() {
+	vC20Retried = false
 	// the config list: its standard base64 has no padding, one or two padding characters, and '+' / '/'
 	cl := [][]byte{{0, 1, 2}, {0xfb, 0xff}, {0xfb}}[vInt(0, 2)]
 	vCur64 = base64.StdEncoding.EncodeToString(cl)
@@ -196,6 +201,11 @@ func verifC20Publish() {
 		if res.Code != StatusError {
 			vAssert(res.Error == nil, "an error is attached to error results only")
 		}
+		// what callers act on: Err() is nil exactly for updated / unchanged records and carries the API failure otherwise
+		vAssert((res.Err() == nil) == (res.Code == StatusUpdated || res.Code == StatusNoChange), "Err() reports success exactly for updated and unchanged records")
+		if res.Code == StatusError {
+			vAssert(errors.Is(res.Err(), errVAPI), "Err() of an error result wraps the API failure")
+		}
 		switch {
 		case tg.Zone != "z1" && tg.Zone != "z2":
 			vAssert(res.Code == StatusNotFound, "unknown zone: not found")
@@ -283,7 +293,32 @@ func verifC20Publish() {
 	vReach("published")
 	// second publish of the same list after the successful PATCHes were stored:
 	// nothing is current-but-rewritten, nothing else is touched
-	if failPatchAt < 0 && !failZone {
+	if failPatchAt == 0 && len(patches) > 0 {
+		// the write that failed was not stored: publishing the same list again writes that record again
+		failPatchAt = -1
+		failed := patches[0]
+		for _, p := range patches[1:] {
+			for k := range table {
+				if table[k].id == p.recordID && table[k].zoneID == p.zoneID {
+					table[k].value = p.value
+				}
+			}
+		}
+		before := len(patches)
+		res2 := cf.PublishECH(context.Background(), targets, cl)
+		again := false
+		for _, p := range patches[before:] {
+			again = again || (p.recordID == failed.recordID && p.zoneID == failed.zoneID && p.value == failed.value)
+		}
+		laterOK := false // (a duplicate target may have rewritten the same record successfully in the first call)
+		for _, p := range patches[1:before] {
+			laterOK = laterOK || (p.recordID == failed.recordID && p.zoneID == failed.zoneID)
+		}
+		vAssert(len(res2) == len(targets) && (again || laterOK), "after a failed write the next publish writes that record again (nothing is remembered as done)")
+		vReach("retried-after-failure")
+		vC20Retried = true
+	}
+	if failPatchAt < 0 && !failZone && len(patches) >= 0 && vReachedRetry() == false {
 		for _, p := range patches {
 			for k := range table {
 				if table[k].id == p.recordID {
